@@ -17,8 +17,9 @@ through a `World`.
   unmasked `u16`; the model guards (`Abort.oob` when `≥ 8`).
 * `interrupt_handler()` becomes the `Nat` component (number of invocations) of `doDma`/`setZ`.
 * `while (running) Tick` is `run` with structural fuel; out of fuel is `Abort.hang`.
-  `Proofs/C13.lean` proves `ticksBound` sufficient except for the one family of configurations
-  on which the C++ loop really does not end (`dword_mode ≠ 0 ∧ size0 = 0xFFFF`).
+  `Proofs/C13.lean` proves `ticksBound` sufficient for every configuration.  (Upstream the three
+  counters were `u16` and the loop did not end for `dword_mode ≠ 0 ∧ size0 = 0xFFFF`;
+  `advanceUpstream` / `runUpstream` keep that behaviour for the witness `dma_hangs_upstream`.)
 -/
 namespace Teakra
 
@@ -134,9 +135,9 @@ structure DmaChannel where
   z : U16 := 0
   currentSrc : U32 := 0
   currentDst : U32 := 0
-  counter0 : U16 := 0
-  counter1 : U16 := 0
-  counter2 : U16 := 0
+  counter0 : U32 := 0      -- `u32` since the repair of the double-word counter wrap (was `u16`)
+  counter1 : U32 := 0
+  counter2 : U32 := 0
   running : U16 := 0
   ahbmChannel : U16 := 0
   deriving DecidableEq, Repr, Inhabited
@@ -211,14 +212,42 @@ def xfer (c : DmaChannel) (w : World M E) : R (World M E) :=
       pure (w1.commit a ev)
     else pure w1
 
-/-- Second half of `Dma::Channel::Tick`: counters and cursors (`u16` counters, `u32 += u16`). -/
+/-- Second half of `Dma::Channel::Tick`: counters and cursors (`u32` counters compared with the
+`u16` sizes, `u32 += u16` cursors). -/
 def advance (c : DmaChannel) : DmaChannel :=
-  let c0 : U16 := c.counter0 + (if c.dwordMode ≠ 0 then 2 else 1)
-  if c0 ≥ c.size0 then
-    let c1 : U16 := c.counter1 + 1
-    if c1 ≥ c.size1 then
-      let c2 : U16 := c.counter2 + 1
-      if c2 ≥ c.size2 then
+  let c0 : U32 := c.counter0 + (if c.dwordMode ≠ 0 then 2 else 1)
+  if c0 ≥ c.size0.setWidth 32 then
+    let c1 : U32 := c.counter1 + 1
+    if c1 ≥ c.size1.setWidth 32 then
+      let c2 : U32 := c.counter2 + 1
+      if c2 ≥ c.size2.setWidth 32 then
+        { c with counter0 := 0, counter1 := 0, counter2 := c2, running := 0 }
+      else
+        { c with counter0 := 0, counter1 := 0, counter2 := c2,
+                 currentSrc := c.currentSrc + c.srcStep2.setWidth 32,
+                 currentDst := c.currentDst + c.dstStep2.setWidth 32 }
+    else
+      { c with counter0 := 0, counter1 := c1,
+               currentSrc := c.currentSrc + c.srcStep1.setWidth 32,
+               currentDst := c.currentDst + c.dstStep1.setWidth 32 }
+  else
+    { c with counter0 := c0,
+             currentSrc := c.currentSrc + c.srcStep0.setWidth 32,
+             currentDst := c.currentDst + c.dstStep0.setWidth 32 }
+
+/-- `(u16)x` kept in a `u32` field. -/
+def trunc16 (x : U32) : U32 := (x.setWidth 16).setWidth 32
+
+/-- The counter half of `Tick` as it was upstream, before the repair: the three counters were
+`u16`, so every `+=` was truncated to 16 bits (`counter0 += 2` steps 0xFFFE → 0).  Kept so that
+the non-termination it caused stays a proved witness (`dma_hangs_upstream`). -/
+def advanceUpstream (c : DmaChannel) : DmaChannel :=
+  let c0 : U32 := trunc16 (c.counter0 + (if c.dwordMode ≠ 0 then 2 else 1))
+  if c0 ≥ c.size0.setWidth 32 then
+    let c1 : U32 := trunc16 (c.counter1 + 1)
+    if c1 ≥ c.size1.setWidth 32 then
+      let c2 : U32 := trunc16 (c.counter2 + 1)
+      if c2 ≥ c.size2.setWidth 32 then
         { c with counter0 := 0, counter1 := 0, counter2 := c2, running := 0 }
       else
         { c with counter0 := 0, counter1 := 0, counter2 := c2,
@@ -248,6 +277,15 @@ def run : Nat → DmaChannel → World M E → R (DmaChannel × World M E)
       | .ok (c', w') => run fuel c' w'
       | .error e => .error e
 
+/-- The upstream loop (`u16` counters), for the witness of the repaired defect. -/
+def runUpstream : Nat → DmaChannel → World M E → R (DmaChannel × World M E)
+  | 0, c, w => if c.running = 0 then .ok (c, w) else .error .hang
+  | fuel + 1, c, w =>
+    if c.running = 0 then .ok (c, w)
+    else match xfer c w with
+      | .ok w' => runUpstream fuel (advanceUpstream c) w'
+      | .error e => .error e
+
 /-- Elements per dimension-0 stride: `size0` (zero as one); in double-word mode each element
 counts two. -/
 def n0 (c : DmaChannel) : Nat :=
@@ -255,8 +293,7 @@ def n0 (c : DmaChannel) : Nat :=
 def n1 (c : DmaChannel) : Nat := max c.size1.toNat 1
 def n2 (c : DmaChannel) : Nat := max c.size2.toNat 1
 
-/-- Number of ticks after which the loop has ended (proved sufficient in `Proofs/C13.lean`
-whenever the loop ends at all). -/
+/-- Number of ticks after which the loop has ended (proved sufficient in `Proofs/C13.lean`). -/
 def ticksBound (c : DmaChannel) : Nat := c.n0 * c.n1 * c.n2
 
 end DmaChannel
